@@ -427,8 +427,21 @@ fn tests(b: &[Stmt], x: usize) -> bool {
     b.iter().any(|s| match s {
         Stmt::If(arms, els) => arms.iter().any(|(c, bb)| cond_tests(c, x) || tests(bb, x)) || els.as_ref().map(|bb| tests(bb, x)).unwrap_or(false),
         Stmt::While(c, bb) | Stmt::BreakIf(c, bb) => cond_tests(c, x) || tests(bb, x),
-        Stmt::Repeat(bb, _) => tests(bb, x), // the `until` condition is evaluated on the exit edge only
+        Stmt::Repeat(bb, c) => tests(bb, x) || cond_tests(c, x),
         Stmt::WhileTrue(bb) | Stmt::For(_, _, bb) => tests(bb, x),
+        _ => false })
+}
+fn has_empty_else(b: &[Stmt]) -> bool {
+    b.iter().any(|s| match s {
+        Stmt::If(arms, els) => els.as_ref().map(|bb| bb.is_empty() || has_empty_else(bb)).unwrap_or(false) || arms.iter().any(|(_, bb)| has_empty_else(bb)),
+        Stmt::While(_, bb) | Stmt::WhileTrue(bb) | Stmt::Repeat(bb, _) | Stmt::For(_, _, bb) | Stmt::BreakIf(_, bb) => has_empty_else(bb),
+        _ => false })
+}
+/// does the block contain a `break` that leaves the loop whose body it is (not one of a nested loop)
+fn own_break(b: &[Stmt]) -> bool {
+    b.iter().any(|s| match s {
+        Stmt::BreakIf(..) => true,
+        Stmt::If(arms, els) => arms.iter().any(|(_, bb)| own_break(bb)) || els.as_ref().map(|bb| own_break(bb)).unwrap_or(false),
         _ => false })
 }
 /// shape classes of the loops of a program with respect to variable x (any nesting depth)
@@ -438,7 +451,12 @@ fn loop_shapes(b: &[Stmt], x: usize, out: &mut BTreeSet<&'static str>) {
             Stmt::If(arms, els) => { for (_, bb) in arms { loop_shapes(bb, x, out); } if let Some(bb) = els { loop_shapes(bb, x, out); } }
             Stmt::BreakIf(_, bb) => loop_shapes(bb, x, out),
             Stmt::While(_, bb) => { if assigns(bb, x) { out.insert("while-cond-body-assigns-probed-var"); } loop_shapes(bb, x, out); }
-            Stmt::WhileTrue(bb) | Stmt::Repeat(bb, _) => { if assigns(bb, x) && tests(bb, x) { out.insert("loop-body-tests-and-assigns-probed-var"); } loop_shapes(bb, x, out); }
+            Stmt::WhileTrue(bb) => { if assigns(bb, x) && tests(bb, x) { out.insert("loop-body-tests-and-assigns-probed-var"); } loop_shapes(bb, x, out); }
+            Stmt::Repeat(bb, _) => {
+                if assigns(bb, x) && tests(bb, x) { out.insert("loop-body-tests-and-assigns-probed-var"); }
+                else if assigns(bb, x) && own_break(bb) { out.insert("repeat-break-after-body-assigned-probed-var"); }
+                loop_shapes(bb, x, out);
+            }
             Stmt::For(a, z, bb) => { if z >= a && assigns(bb, x) && tests(bb, x) { out.insert("loop-body-tests-and-assigns-probed-var"); } loop_shapes(bb, x, out); }
             _ => {}
         }
@@ -475,7 +493,8 @@ fn check_prog(p: &Prog) -> (Vec<Viol>, Vec<Obs>, Vec<Vec<u8>>, usize) {
                     let mut sh = BTreeSet::new();
                     loop_shapes(&p.body, *x, &mut sh);
                     if sh.is_empty() { "unsound-narrowing-with-loops-other".to_string() } else { sh.into_iter().next().unwrap().to_string() }
-                } else if o.atoms.is_empty() { "never-typed-point-executed".to_string() } else { "unsound-narrowing".to_string() };
+                } else if has_empty_else(&p.body) { "empty-else-drops-false-branch".to_string() }
+                else if o.atoms.is_empty() { "never-typed-point-executed".to_string() } else { "unsound-narrowing".to_string() };
                 v.push(Viol { signature: sig, what: format!("probe {} of x{}: runtime type {} is possible but the inferred type is {} ", id, x, tag_of_val(*val), if o.human.is_empty() { "never".to_string() } else { o.human.clone() }), probe: *id });
                 break;
             }
@@ -556,7 +575,9 @@ fn case_json(p: &Prog, obs: &[Obs], r: &[Vec<u8>], oof: usize) -> Value {
     probes_info(&p.body, false, &mut info);
     json!({"p": prog_json(p), "text": print_prog(p),
            "obs": obs.iter().map(|o| json!({"a": o.atoms, "c": o.canon, "h": o.human, "err": o.err})).collect::<Vec<_>>(),
-           "reach": r, "oof": oof, "k": oracle_len(p), "inloop": info.iter().map(|x| x.2).collect::<Vec<_>>()})
+           "reach": r, "oof": oof, "k": oracle_len(p), "inloop": info.iter().map(|x| x.2).collect::<Vec<_>>(),
+           "pvar": info.iter().map(|x| x.1).collect::<Vec<_>>(),
+           "known": info.iter().map(|x| { let mut sh = BTreeSet::new(); loop_shapes(&p.body, x.1, &mut sh); !sh.is_empty() }).collect::<Vec<_>>()})
 }
 
 fn main() {
@@ -589,12 +610,23 @@ fn main() {
             let progs: Vec<Prog> = corpus(loops).into_iter().chain((0..n).map(|_| gen_prog(&mut rng, loops))).collect();
             let mut distinct = HashSet::new();
             let (mut cases, mut probes, mut reached, mut with_loops, mut oofs, mut nontrivial) = (0usize, 0usize, 0usize, 0usize, 0usize, 0usize);
+            let (mut after_loops_ok, mut after_loops_known) = (0usize, 0usize);
             let mut seen_sig: HashSet<String> = HashSet::new();
             let mut nviol = 0usize;
             for p in progs {
                 let (v, obs, r, oof) = check_prog(&p);
                 cases += 1; probes += obs.len(); reached += r.iter().filter(|s| !s.is_empty()).count(); oofs += oof;
-                if has_loop(&p.body) { with_loops += 1; }
+                if has_loop(&p.body) {
+                    with_loops += 1;
+                    let mut info = Vec::new();
+                    probes_info(&p.body, false, &mut info);
+                    for (id, x, in_loop) in &info {
+                        if *in_loop || r.get(*id).map(|s| s.is_empty()).unwrap_or(true) { continue; }
+                        let mut sh = BTreeSet::new();
+                        loop_shapes(&p.body, *x, &mut sh);
+                        if sh.is_empty() { after_loops_ok += 1; } else { after_loops_known += 1; }
+                    }
+                }
                 let text = print_prog(&p);
                 let nt = text.contains("if ") && obs.len() > 0;
                 if nt { nontrivial += 1; distinct.insert(text.clone()); }
@@ -611,7 +643,8 @@ fn main() {
                 }
             }
             println!("{}", json!({"summary": {"cases": cases, "distinct_nontrivial": distinct.len(), "nontrivial": nontrivial, "probes": probes,
-                                             "probes_reached": reached, "programs_with_loops": with_loops, "runs_out_of_fuel": oofs, "violating_probes": nviol}}));
+                                             "probes_reached": reached, "programs_with_loops": with_loops, "runs_out_of_fuel": oofs, "violating_probes": nviol,
+                                             "reached_probes_after_loops_outside_known_class": after_loops_ok, "reached_probes_after_loops_in_known_class": after_loops_known}}));
         }
         "one" => {
             let j: Value = serde_json::from_str(&args.str("case-json", "{}")).unwrap();
@@ -620,6 +653,17 @@ fn main() {
             println!("{}", case_json(&p, &obs, &r, oof));
             for viol in v { println!("{}", json!({"signature": viol.signature, "what": viol.what, "probe": viol.probe})); }
         }
-        _ => { eprintln!("usage: c15 corr|search|one|dump"); std::process::exit(2); }
+        "diag" => {
+            // diagnostics of the property's own example (C41): `local k = nil; while not k do k = 'x' end; k:upper()`
+            let text = args.str("text", "local k = nil\nwhile not k do\n  k = 'x'\nend\nk:upper()\n");
+            let mut ws = VirtualWorkspace::new_with_init_std_lib();
+            ws.enable_full_diagnostic();
+            let file_id = ws.def(&text);
+            let diags = ws.analysis.diagnose_file(file_id, tokio_util::sync::CancellationToken::new()).unwrap_or_default();
+            let mut codes: Vec<String> = diags.iter().map(|d| match &d.code { Some(lsp_types::NumberOrString::String(s)) => s.clone(), _ => "?".into() }).collect();
+            codes.sort();
+            println!("{}", json!({"text": text, "codes": codes}));
+        }
+        _ => { eprintln!("usage: c15 corr|search|one|dump|diag"); std::process::exit(2); }
     }
 }
